@@ -23,7 +23,7 @@ RULE = ("(a) Hypothesis-generated join programs (source shapes x criteria shapes
         "(b)-(f) enumerated completely: set-operation arities x select-list lengths, CASE with 0-2 WHENs, all orders of conflict-handler calls of length <= 4 on "
         "insert and non-insert builders, RETURNING argument kinds x statement kinds x table ownership, one-shot calls repeated. Non-trivial join case = the "
         "criterion mentions >= 2 tables and one of {alias, schema, temporal, CTE, function wrapper, name collision}; every enumerated case counts. Also enumerated: set operations as operands "
-        "of set operations; RETURNING on statements with ON / USING joins and after a star, with fields, arithmetic, functions, comparisons, IS NULL, BETWEEN, IN, NOT, CASE, minus, tuples.")
+        "of set operations; RETURNING on statements with ON / USING joins and after a star, with fields, arithmetic, functions, comparisons, IS NULL, BETWEEN, IN, NOT, CASE, minus, tuples. Joins given no condition at all (on(None), on_field(), using()) over three source shapes.")
 ASSUMPTIONS = [
     "available sources for a join criterion = FROM items, the update table, declared CTE names, earlier join items and the item being joined; fields inside a subquery operand belong to the subquery",
     "table identity is (name, schema path, alias); temporal clauses do not take part (documented Table.__eq__)",
